@@ -493,7 +493,8 @@ let grammarits_line line =
            let ld = { l_link = ni link; l_fee = ni fee; l_version = ni ver; l_system = ni sys; l_format = ni fmt; l_cru = ni cru; l_dw = ni dw;
                       l_hbfs = List.map hbf (List.filter (fun x -> x <> "") hbfs) } in
            let its = match link_witness ld with Some _ -> 1 | None -> 0 in
-           Printf.sprintf "wf=%d its=%d %s" (if wf_link_rdh ld then 1 else 0) its
+           let stave = match stave_witness ld with Some _ -> 1 | None -> 0 in
+           Printf.sprintf "wf=%d its=%d stave=%d %s" (if wf_link_rdh ld then 1 else 0) its stave
              (String.concat "," (List.map (fun (r, p) -> hex_of_bytes (encode_rdh r) ^ hex_of_bytes p) (render_link ld)))
        | _ -> "BAD")
   | _ -> "BAD"
